@@ -284,7 +284,14 @@ class C12(Property):
             'kind (socket.timeout T, deadline expiry W, BlockingIOError E) in every gap x 7 send scripts x 3 interleaved '
             'families, plus random interleavings of the rx/tx random families; recv/send/sendall with a flags argument '
             '(0 and non-zero); nonblocking mode (timeout=0.0) for fault cases; return values that are not immutable '
-            'bytes are re-read at the end of the case. The scripted clock jumps as a function of socket events only.')
+            'bytes are re-read at the end of the case. The scripted clock jumps as a function of socket events only. '
+            'Round 3c: what the statement leaves free reaches the model as an observation instead of being predicted by '
+            'it - every recv attempt (returned value / fault class, getrecvbuffer(), bytes and faults the network still '
+            'holds) is accepted or rejected by the Lean predicate acceptRecv (the recv clause of the statement) and the '
+            'model continues from the observed state; after every attempt of a framing call the model, which computed '
+            'the attempt, is re-seated on the observed split when it is a split of the same bytes owed; the sizes every '
+            'sock.send was given are handed to the model (offers) when some call offered less than the whole buffer; '
+            'nsr compares rbuf ++ undelivered after each read_ns.')
     ASSUMPTIONS = [
         'the wrapped socket returns b"" from recv only at end of stream, never more than the requested bytes, and '
         'send returns how many bytes it took (scripted FakeSock in harness/bv/props/c12.py)',
@@ -300,6 +307,11 @@ class C12(Property):
         'read_ns size prefixes go through int(): the model of int(bytes) (parsePyInt) is compared with this '
         'interpreter\'s int() on every byte string of length <= 4 over a 12-letter alphabet on every run',
         'single-threaded use (the RLocks are not exercised)',
+        'left free by the statement and therefore observed, not predicted: which non-empty prefix recv() returns, how '
+        'any receive-side call splits the bytes still owed between rbuf and the socket (how much it asks the socket '
+        'for), and how many bytes of the send buffer one sock.send call is given; the observation is trusted only as '
+        'far as the scripted socket reports it (bytes / faults it still holds, len(data) of every send) and '
+        'getrecvbuffer() / getsendbuffer() return the buffers',
     ]
     CORRESPONDENCE_NAME = 'C12.Driver (BufferedSocket/NetstringSocket model) vs boltons.socketutils over a scripted socket'
 
